@@ -457,7 +457,270 @@ fn failing_splice(ctx: &mut Ctx) {
     }
 }
 
+// ---------------------------------------------------------------------------------------------------------
+// "capacity overflow": requests whose element count has no layout (`len + additional > isize::MAX / size_of::<T>()`,
+// incl. sums that overflow `usize` and byte sizes that overflow `usize` although the element count does not) for
+// every element size in use (1, 2, 4, 8, 16), on vectors with and without an existing buffer.  `try_*` must
+// return `Err` (never panic, never `Ok`) and leave the vector alone; the panicking twins must unwind with
+// "capacity overflow".  Requests that are huge but DO have a layout only go to the `try_*` twins (the panicking
+// ones would abort the process when the allocator refuses): they must return `Err` as well.
+
+pub trait Num: Copy + PartialEq + std::fmt::Debug + 'static {
+    fn of(i: u64) -> Self;
+    fn val(self) -> u64;
+}
+impl Num for u8 {
+    fn of(i: u64) -> u8 { i as u8 }
+    fn val(self) -> u64 { self as u64 }
+}
+impl Num for u16 {
+    fn of(i: u64) -> u16 { i as u16 }
+    fn val(self) -> u64 { self as u64 }
+}
+impl Num for u32 {
+    fn of(i: u64) -> u32 { i as u32 }
+    fn val(self) -> u64 { self as u64 }
+}
+impl Num for u64 {
+    fn of(i: u64) -> u64 { i }
+    fn val(self) -> u64 { self }
+}
+impl Num for [u64; 2] {
+    fn of(i: u64) -> [u64; 2] { [i, !i] }
+    fn val(self) -> u64 { if self[1] == !self[0] { self[0] } else { u64::MAX } }
+}
+
+fn overflow_args(size: usize, len: usize) -> Vec<usize> {
+    let um = usize::MAX;
+    let im = isize::MAX as usize;
+    let mut v = vec![
+        um, um - 1, um - len, um - len - 1,
+        um / 2, um / 2 + 1, um / 2 - 1, um / 2 + 2,
+        im, im - 1, im + 1, im - len, im - len + 1,
+        um / size, (um / size).saturating_add(1), um / size - 1, (um / size).saturating_sub(len), (um / size).saturating_sub(len).saturating_add(1),
+        im / size, im / size + 1, im / size - 1, (im / size).saturating_sub(len), (im / size).saturating_sub(len) + 1,
+        (im / size).saturating_sub(len).saturating_sub(1),
+        um / (2 * size) + 1, um / 3, um / 5 * 4,
+        1usize << 40, 1usize << 34,
+    ];
+    v.retain(|n| *n >= 1usize << 34);
+    v.sort_unstable();
+    v.dedup();
+    v
+}
+
+fn panic_text(p: &Box<dyn std::any::Any + Send>) -> String {
+    if let Some(s) = p.downcast_ref::<&str>() {
+        s.to_string()
+    } else if let Some(s) = p.downcast_ref::<String>() {
+        s.clone()
+    } else {
+        "<non-string payload>".to_string()
+    }
+}
+
+macro_rules! overflow_body {
+    ($ctx:ident, $v:ident, $T:ty, $kind:expr, $has_exact:expr) => {{
+        let size = std::mem::size_of::<$T>();
+        let max_cap = isize::MAX as usize / size;
+        let kind: FKind = $kind;
+        let snapshot = |v: &[$T]| -> Vec<u64> { v.iter().map(|x| x.val()).collect() };
+        let pre_ids = snapshot($v.as_slice());
+        let (pre_len, pre_cap, pre_ptr) = ($v.len(), $v.capacity(), $v.as_ptr() as usize);
+        let _ = writeln!($ctx.out, "# trace {} failing-overflow kind={} size={size} len={pre_len} cap={pre_cap}", $ctx.trace_no, kind.tok());
+        $ctx.trace_no += 1;
+        let _ = writeln!($ctx.out, "new f {} cap={pre_cap} ids={} addr={pre_ptr}", kind.model_kind_overflow(), csv(&pre_ids));
+        let mut dead = false;
+        for n in overflow_args(size, pre_len) {
+            if dead {
+                break;
+            }
+            let overflow = pre_len.checked_add(n).map_or(true, |t| t > max_cap);
+            let new_len = pre_len.saturating_add(n);
+            $ctx.count(if overflow { "overflow:no layout for len + additional" } else { "overflow:huge request with a layout (try_ only)" });
+            // (name, model line, outcome)
+            let mut results: Vec<(&str, Option<String>, Result<bool, String>)> = Vec::new();
+            let line = |name: &str, arg: usize| -> Option<String> {
+                if overflow { Some(format!("op {name} f {arg} via=try o=- bombs=- capin={pre_cap} maxcap={max_cap}")) } else { None }
+            };
+            results.push(("try_reserve", line("reserve", n), catch_unwind(AssertUnwindSafe(|| $v.try_reserve(n).is_err())).map_err(|p| panic_text(&p))));
+            if $has_exact {
+                results.push(("try_reserve_exact", line("reserve_exact", n), catch_unwind(AssertUnwindSafe(|| overflow_reserve_exact!($v, n))).map_err(|p| panic_text(&p))));
+            }
+            results.push(("try_resize", None, catch_unwind(AssertUnwindSafe(|| $v.try_resize(new_len, <$T>::of(77)).is_err())).map_err(|p| panic_text(&p))));
+            results.push(("try_resize_with", line("resize_with", new_len), catch_unwind(AssertUnwindSafe(|| $v.try_resize_with(new_len, || <$T>::of(78)).is_err())).map_err(|p| panic_text(&p))));
+            for (name, l, r) in results {
+                $ctx.oracle_checks += 1;
+                *$ctx.op_hist.entry(format!("overflow:{name}")).or_insert(0) += 1;
+                let what = format!("{}<{}-byte elements> (len={pre_len} cap={pre_cap}) `{name}` with additional={n}", kind.tok(), size);
+                let failed = match &r {
+                    Ok(true) => true,
+                    Ok(false) => {
+                        $ctx.oracle("C07", format!("{what}: returned Ok — {} elements cannot be had ({})", new_len, if overflow { "the capacity computation overflows" } else { "the allocator has nothing like it" }));
+                        dead = true;
+                        false
+                    }
+                    Err(msg) => {
+                        $ctx.oracle("C07", format!("{what}: a try_ method PANICKED (`{msg}`) instead of returning Err"));
+                        false
+                    }
+                };
+                let now = if dead { Vec::new() } else { snapshot($v.as_slice()) };
+                if !dead && (now != pre_ids || $v.len() != pre_len || $v.capacity() != pre_cap || $v.as_ptr() as usize != pre_ptr) {
+                    $ctx.oracle("C07", format!("{what}: the failed call changed the vector: {} len {} cap {} -> {} len {} cap {}", csv(&pre_ids), pre_len, pre_cap, csv(&now), $v.len(), $v.capacity()));
+                    dead = true;
+                }
+                if let (Some(l), false) = (l, dead) {
+                    let _ = writeln!($ctx.out, "{l} => ids={} len={} cap={} drops=- esc=- exit={} used=0", csv(&now), $v.len(), $v.capacity(), if failed { "panic" } else { "ret" });
+                }
+                if dead {
+                    break;
+                }
+            }
+            // the panicking twins: only where no allocator is asked
+            if overflow && !dead {
+                let mut twins: Vec<(&str, Result<(), String>)> = Vec::new();
+                twins.push(("reserve", catch_unwind(AssertUnwindSafe(|| $v.reserve(n))).map_err(|p| panic_text(&p))));
+                twins.push(("resize", catch_unwind(AssertUnwindSafe(|| $v.resize(new_len, <$T>::of(79)))).map_err(|p| panic_text(&p))));
+                twins.push(("resize_with", catch_unwind(AssertUnwindSafe(|| $v.resize_with(new_len, || <$T>::of(80)))).map_err(|p| panic_text(&p))));
+                for (name, r) in twins {
+                    $ctx.oracle_checks += 1;
+                    *$ctx.op_hist.entry(format!("overflow:{name} (panicking)")).or_insert(0) += 1;
+                    let what = format!("{}<{}-byte elements> (len={pre_len} cap={pre_cap}) `{name}` with additional={n}", kind.tok(), size);
+                    match r {
+                        Ok(()) => {
+                            $ctx.oracle("C07", format!("{what}: returned normally although the capacity computation overflows"));
+                            dead = true;
+                        }
+                        Err(msg) => {
+                            if kind != FKind::Fixed && !msg.contains("capacity overflow") {
+                                $ctx.oracle("C07", format!("{what}: panicked with `{msg}` instead of \"capacity overflow\""));
+                            }
+                        }
+                    }
+                    if !dead && (snapshot($v.as_slice()) != pre_ids || $v.len() != pre_len || $v.capacity() != pre_cap || $v.as_ptr() as usize != pre_ptr) {
+                        $ctx.oracle("C07", format!("{what}: the failed call changed the vector"));
+                        dead = true;
+                    }
+                    if dead {
+                        break;
+                    }
+                }
+            }
+        }
+        if dead {
+            // the vector claims memory it does not have: do not touch it any more
+            std::mem::forget($v);
+        }
+        print!("{}", $ctx.out);
+        $ctx.out.clear();
+    }};
+}
+
+impl FKind {
+    /// for the overflow cases the real kind is announced (the refusal comes from the capacity computation, which
+    /// the model has for every kind); `MutBumpVec(Rev)` with `capin` = what it has
+    fn model_kind_overflow(self) -> &'static str {
+        match self {
+            FKind::Fixed => "fixed",
+            FKind::Bump => "bump",
+            FKind::Mut => "mut",
+            FKind::Rev => "rev",
+        }
+    }
+}
+
+macro_rules! overflow_case {
+    ($fname:ident, $S:ty) => {
+        fn $fname<T: Num>(ctx: &mut Ctx, kind: FKind, len: usize, cap: usize) {
+            BASE.with(|b| b.borrow_mut().reset(seed() ^ (len as u64 * 131 + cap as u64)));
+            let mut bump: Bump<A0, $S> = match Bump::try_with_size_in(512, A0::default()) {
+                Ok(b) => b,
+                Err(_) => return,
+            };
+            match kind {
+                FKind::Fixed => {
+                    let mut v: FixedBumpVec<T> = match FixedBumpVec::try_with_capacity_in(cap, &bump) {
+                        Ok(v) => v,
+                        Err(_) => return,
+                    };
+                    for i in 0..len {
+                        v.push(T::of(1 + i as u64));
+                    }
+                    macro_rules! overflow_reserve_exact { ($w:ident, $n:expr) => { true }; }
+                    overflow_body!(ctx, v, T, FKind::Fixed, false);
+                }
+                FKind::Bump => {
+                    let mut v: BumpVec<T, &Bump<A0, $S>> = match BumpVec::try_with_capacity_in(cap, &bump) {
+                        Ok(v) => v,
+                        Err(_) => return,
+                    };
+                    for i in 0..len {
+                        v.push(T::of(1 + i as u64));
+                    }
+                    macro_rules! overflow_reserve_exact { ($w:ident, $n:expr) => { $w.try_reserve_exact($n).is_err() }; }
+                    overflow_body!(ctx, v, T, FKind::Bump, true);
+                }
+                FKind::Mut => {
+                    let mut v: MutBumpVec<T, &mut Bump<A0, $S>> = if cap == 0 {
+                        MutBumpVec::new_in(&mut bump)
+                    } else {
+                        match MutBumpVec::try_with_capacity_in(cap, &mut bump) {
+                            Ok(v) => v,
+                            Err(_) => return,
+                        }
+                    };
+                    for i in 0..len {
+                        v.push(T::of(1 + i as u64));
+                    }
+                    macro_rules! overflow_reserve_exact { ($w:ident, $n:expr) => { $w.try_reserve_exact($n).is_err() }; }
+                    overflow_body!(ctx, v, T, FKind::Mut, true);
+                }
+                FKind::Rev => {
+                    let mut v: MutBumpVecRev<T, &mut Bump<A0, $S>> = if cap == 0 {
+                        MutBumpVecRev::new_in(&mut bump)
+                    } else {
+                        match MutBumpVecRev::try_with_capacity_in(cap, &mut bump) {
+                            Ok(v) => v,
+                            Err(_) => return,
+                        }
+                    };
+                    for i in (0..len).rev() {
+                        v.push(T::of(1 + i as u64));
+                    }
+                    macro_rules! overflow_reserve_exact { ($w:ident, $n:expr) => { $w.try_reserve_exact($n).is_err() }; }
+                    overflow_body!(ctx, v, T, FKind::Rev, true);
+                }
+            }
+        }
+    };
+}
+overflow_case!(overflow_up, FUp);
+overflow_case!(overflow_down, FDown);
+
+fn failing_overflow(ctx: &mut Ctx) {
+    for kind in [FKind::Bump, FKind::Mut, FKind::Rev, FKind::Fixed] {
+        for (len, cap) in [(0usize, 0usize), (3, 4), (4, 4), (1, 9)] {
+            macro_rules! all_sizes {
+                ($f:ident) => {
+                    $f::<u8>(ctx, kind, len, cap);
+                    $f::<u16>(ctx, kind, len, cap);
+                    $f::<u32>(ctx, kind, len, cap);
+                    $f::<u64>(ctx, kind, len, cap);
+                    $f::<[u64; 2]>(ctx, kind, len, cap);
+                };
+            }
+            if ctx.rng.chance(1, 2) {
+                all_sizes!(overflow_up);
+            } else {
+                all_sizes!(overflow_down);
+            }
+        }
+    }
+}
+
 pub fn run_failing_profile(ctx: &mut Ctx, budget: usize) {
+    failing_overflow(ctx);
     failing_splice(ctx);
     let rounds = budget.max(1);
     for round in 0..rounds {
